@@ -23,6 +23,9 @@ Level1(S) == S \cup {a \o "." \o m : a \in S, m \in Members}
                 \cup UNION {Spellings(a, m) : a \in S \cap {"s", "t", "from", "to", "s.pub", "lst[0]", "d[\"k\"]", "tup[0]"}, m \in PrivateMembers \cup {"pub"}}
                 \cup {f \o "(" \o a \o ")" : f \in Funcs, a \in S}
                 \cup {a \o "[" \o i \o "]" : a \in {"lst", "d", "tup", "s", "from", "to"}, i \in {"0", "\"k\"", "\"_x\""}}
+                \* subscripting objects that are NOT subscriptable (a fallback to attribute access would be a route)
+                \cup {a \o "[" \o i \o "]" : a \in {"s.pub", "t.pub", "lst[0].pub", "n", "from.pub"},
+                                               i \in {"\"_x\"", "\"value\"", "\"_\" + \"x\"", "0"}}
 Formatters == {"\"{0._x}\"", "\"{0.pub._x}\"", "\"{0[k]._x}\"", "\"{0.__class__}\"", "\"{0.__class__.__name__}\"",
                "\"{0._Sentinel__secret}\"", "\"{0[0]._x}\""}
 Calls(S) == {f \o ".format(" \o a \o ")" : f \in Formatters, a \in S}
